@@ -27,7 +27,8 @@ ASSUMPTIONS = ["Python's own tokenizer / parser / repr of atoms and the pickle m
 SHARD = 500
 
 NAMES = ['a', 'b', 'c', 'foo', 'k0', 'x_y', 'values']
-STRS = ['a', 'b', 'x.y', "it's", 'say "hi"', '', 'a b', '*', '**', '0', "q'\"z"]
+STRS = ['a', 'b', 'x.y', "it's", 'say "hi"', '', 'a b', '*', '**', '0', "q'\"z",
+        'a string that is rather longer than thirty characters, quite a bit longer']     # reprlib's default limits: 30 characters,
 BUILTINS = ['len', 'int', 'str', 'sum', 'list', 'dict']
 FLOATS = ['1.5', '-0.25', '2.0', '1e+100', '0.1']
 ROOTS = {'T': 'RT', 'S': 'RS', 'A': 'RA'}
@@ -63,7 +64,7 @@ class Gen:
         r = self.r
         k = r.random()
         if k < 0.3:
-            return {'lit': r.choice([0, 1, -1, 2, 7, -12, 100])}
+            return {'lit': r.choice([0, 1, -1, 2, 7, -12, 100, 10 ** 45 + 7])}       # ... 40 digits,
         if k < 0.6:
             return {'lit': r.choice(STRS)}
         if k < 0.7:
@@ -78,8 +79,8 @@ class Gen:
         if depth <= 0 or k < 0.6:
             return self.lit()
         if k < 0.8:
-            n = r.choice([0, 1, 2, 3])
-            return {'tup': [self.arg(depth - 1, allow_t) for _ in range(n)]}
+            n = r.choice([0, 1, 2, 3, 0, 1, 2, 3, 7, 9])                              # ... 6 elements
+            return {'tup': [self.arg(depth - 1 if n < 7 else 0, allow_t) for _ in range(n)]}
         if allow_t:
             rt = r.choice(['T', 'T', 'S'])
             return {'t': {'root': rt, 'steps': self.steps(r.randint(1, 2), depth - 1, root=rt, nested=True)}}
